@@ -288,7 +288,10 @@ def read_scsv(file):
                 + " Check logging output for details."
             )
         reader = csv.reader(
-            csv_lines, delimiter=schema["delimiter"], skipinitialspace=True
+            csv_lines,
+            delimiter=schema["delimiter"],
+            # Blanks after a delimiter are cosmetic, unless the delimiter is a blank.
+            skipinitialspace=schema["delimiter"] != " ",
         )
 
         schema_colnames = [d["name"] for d in schema["fields"]]
